@@ -23,6 +23,16 @@ def opKey (j : Json) : R Json := do
       let buf ← fldHex k "bytes"
       let view ← parseView (← fld k "view")
       pure (some (buf, view))
+  -- a key file of many MiB is represented by a short stand-in buffer together with the SHA-256 of the real file (computed by the
+  -- harness's reference implementation): the model runs on the stand-in with that digest as the stand-in's hash
+  let large ← match fldOpt j "keyfile" with
+    | none => pure none
+    | some k => match fldOpt k "sha256" with
+      | none => pure none
+      | some _ => do pure (some (← fldHex k "bytes", ← fldHex k "sha256"))
+  let execKeyPrims : KeyPrims := match large with
+    | none => execKeyPrims
+    | some (standIn, digest) => { execKeyPrims with sha256 := fun x => if x == standIn then digest else Kp.Crypto.sha256 x }
   let c : Creds := ⟨pw.map String.toList, kf⟩
   let comp := match compositeKdbx execKeyPrims c with
     | none => Json.null
